@@ -47,6 +47,8 @@ def cases(draw):
         kw["optimizer"] = draw(st.sampled_from(["incremental", "incremental", "optimize"]))
         if kw["optimizer"] == "optimize":
             kw["optimize_priority"] = draw(st.sampled_from(["lex", "box", "weight", "pareto"]))
+        elif draw(st.integers(0, 99)) < 40:
+            kw["max_iter"] = draw(st.integers(1, 3))  # the optimisation is cut short: later calls must still be truthful
     return {"spec": spec, "ops": ops, "kw": kw, "seed": draw(st.integers(0, 2**30))}
 
 
@@ -78,6 +80,8 @@ def run_history(ctx, case):
     pareto = kw.get("optimize_priority") in ("pareto", "box") and kw.get("optimizer") == "optimize" and len(spec["objectives"]) > 1
     single_opt = bool(spec["objectives"]) and not pareto and not (kw.get("optimizer") == "optimize" and len(spec["objectives"]) > 1 and kw.get("optimize_priority") in ("lex", "box"))
     ctx.event("mode:" + ("pareto" if pareto else kw.get("optimizer", "satisfiability") if spec["objectives"] else "satisfiability"))
+    if "max_iter" in kw:
+        ctx.event("mode:incremental_with_max_iter")
 
     def viol(rule, observed, step):
         ctx.violation({"check": "C13.history", "rule": rule, "spec": spec, "seed": seed, "ops": ops[: step + 1], "kw": kw,
@@ -164,7 +168,7 @@ def run_history(ctx, case):
             if c12.consistent(nproj, [e[:3] for e in exclusions if e[0] == "timing" or not e[3]]) is False:
                 viol("returned_schedule_ignores_an_earlier_request", {"call": name, "projection": list(nproj)}, step)
                 return
-            if name == "solve" and single_opt and not exclusions and kw.get("optimizer") != "optimize":
+            if name == "solve" and single_opt and not exclusions and kw.get("optimizer") != "optimize" and "max_iter" not in kw:
                 # (the built-in z3 optimiser is not judged for optimality: it returns non-optimal models, DESIGN.md section 5)
                 val = objective_value(h)
                 if optimum is None:
